@@ -273,6 +273,18 @@ def report(prop, a, api, results, t0, seed):
         print(f"KNOWN-FINDING: property={prop} {kf['what']}")
     rc = 0
     os.makedirs(os.path.join(VERIF, "replay", prop), exist_ok=True)
+    # one VIOLATION line per obligation label (a clause refuted on several paths is one violation); prefer a
+    # path whose counter-model replayed natively
+    best = {}
+    for unit, d in violations:
+        lab = d["name"].split("#")[0]
+        conf = bool((d.get("replay") or {}).get("confirmed")) or bool(d.get("witness_confirmed"))
+        if lab not in best or (conf and not best[lab][2]):
+            best[lab] = (unit, d, conf)
+    n_paths = {}
+    for unit, d in violations:
+        n_paths[d["name"].split("#")[0]] = n_paths.get(d["name"].split("#")[0], 0) + 1
+    violations = [(u, d) for (u, d, _) in best.values()]
     for unit, d in violations:
         path = os.path.join(VERIF, "replay", prop, _slug(d["name"]) + ".json")
         rp = d.get("replay") or {}
@@ -289,6 +301,9 @@ def report(prop, a, api, results, t0, seed):
         if rp:
             print(f"  native replay: confirmed={rp.get('confirmed')} failed={rp.get('failed_clauses')} result={str(rp.get('result'))[:200]} {rp.get('raised','')}")
         rc = 1
+    if a.verbose:
+        for o in per_ob:
+            print(f"   {o.get('verdict',''):10s} {o.get('ms',0):8.1f}ms {o.get('solver',''):10s} {o['name']}")
     for unit, why in undecided:
         print(f"UNDECIDED property={prop} unit={unit} {why}")
     for unit, tb in crashes:
